@@ -24,7 +24,10 @@ ASSUMPTIONS = [
 ]
 RULE = ("cases = seeded random walks (VERIF_SEED) of the real generated archetypes for 1-4 replicas, 1-3 clients, 1-3 keys, 2-8 client operations, "
         "EXPLORE_FAIL on (85%) or off; crash choice biased towards the current primary inside sndReplicaReqLoop/rcvReplicaRespLoop/sndSyncReqLoop, never "
-        "crashing the last replica; 10% of the dictated either-branches are the ones that look disabled (abort path); plus corpus/C14 explicit schedules "
+        "crashing the last replica; 10% of the dictated either-branches are the ones that look disabled (abort path); >= 2 distinct keys in 5 of 6 walks; "
+        "plus the failover family (props/c14.py failover_scenario: scripted prefix = the primary crashes at a chosen attempt of sndReplicaReqLoop / "
+        "rcvReplicaRespLoop with chosen progress of every backup, the writer slow, another client's Get / Put of the other key first at the new primary, "
+        "3-4 replicas, two keys; systematic grid corpus/C14/failover_family.json + seeded random members); plus corpus/C14 explicit schedules "
         "(Coq witnesses). Non-trivial = the walk contains a crash, a failover sync, or a state with non-empty queues at >= 2 nodes; distinct by canonical schedule text.")
 
 LABELS_R = {"replicaLoop": "ReplicaLoop", "syncPrimary": "SyncPrimary", "sndSyncReqLoop": "SndSyncReqLoop",
@@ -329,12 +332,12 @@ def gen_case(rng, tier):
     nr = rng.choice([1, 2, 2, 3, 3, 3, 4, 4])
     nc = rng.choice([1, 1, 2, 2, 3])
     ef = rng.random() < 0.85
-    nkeys = rng.choice([1, 1, 2, 3])
+    nkeys = rng.choice([1, 2, 2, 2, 3, 3])     # >= 2 keys in 5 of 6 walks (the TLA+ model checks one key; the Go code takes any)
     keys = ["KEY1", "k2", "k3"][:nkeys]
     nops = rng.randint(2, 8)
     inp = []
     for i in range(nops):
-        k = rng.choice(keys)
+        k = keys[i] if i < nkeys else rng.choice(keys)   # every key of the case is used
         if rng.random() < 0.6:
             inp.append({"typ": 3, "key": k, "value": "v%d" % (i + 1)})
         else:
@@ -376,6 +379,123 @@ def restart_prefix(rng, nr, nc):
     return st
 
 
+def failover_scenario(P):
+    """targeted failover family (parameters P, see corpus/C14/failover_family.json): the primary crashes in the middle of
+    replicating Put(k1, A) - mode "snd": together with the send of the PUT_REQ to replica j (j = 2..nr, one value per
+    attempt of sndReplicaReqLoop); mode "rcv": after all sends, together with its (acks+1)-th attempt of
+    rcvReplicaRespLoop - while each backup b that got the PUT_REQ has progressed depth[b] labels (0 = has not looked at
+    it, 1 = at handleBackup, 2 = applied and acknowledged, 4 = back in rcvMsg). The writer X stays slow (frozen: no retry)
+    while ANOTHER client's request - "get" of k1, "put_other" Put(k2, B), "put_same" Put(k1, B) - is the first thing the new
+    primary sees; "fast" lets the new primary run alone as far as it can; "pre" puts one fully replicated Put before
+    (shouldSync set, versions > 0). Two distinct keys, 3-4 replicas. The prefix is scripted (harness "script": every
+    attempt is a normal step, replays are explicit [p, alt, fail] lists), the rest is a seeded walk."""
+    nr, nc = P["nr"], P["nc"]
+    X = nr + 1
+    k1, k2 = P.get("keys", ["KEY1", "k2"])
+    inp = []
+    if P.get("pre"):
+        inp.append({"typ": 3, "key": P.get("pre_key", k2), "value": "p0"})
+    inp.append({"typ": 3, "key": k1, "value": "A"})
+    inp.append({"get": {"typ": 1, "key": k1}, "put_other": {"typ": 3, "key": k2, "value": "B"},
+                "put_same": {"typ": 3, "key": k1, "value": "B"}}[P["follow"]])
+    inp.append({"typ": 1, "key": k1})
+    inp.extend(P.get("tail", [{"typ": 1, "key": k2}, {"typ": 1, "key": k1}]))
+    depth = {int(b): d for b, d in P.get("depth", {}).items()}
+    sc = []
+    def run(p, until, mn=0, mx=8):
+        if mx > 0:
+            sc.append({"op": "run", "p": p, "until": until, "min": mn, "max": mx})
+    def step(p, fail=0, alt=-1):
+        sc.append({"op": "step", "p": p, "alt": alt, "fail": fail})
+    for r in range(1, nr + 1):
+        run(r, "rcvMsg", 0, 4)
+    if P.get("pre"):
+        run(X, "rcvResp", 1, 3)
+        run(1, "rcvReplicaRespLoop", 1, nr + 4)
+        for b in range(2, nr + 1):
+            run(b, "rcvMsg", 1, 6)
+        run(1, "rcvMsg", 1, nr + 8)
+        run(X, "clientLoop", 1, 2)
+    run(X, "rcvResp", 1, 3)
+    run(1, "sndReplicaReqLoop", 1, 3)
+    step(1)                                   # idx = self
+    if P["mode"] == "snd":
+        j = P["j"]
+        for b in range(2, j):
+            step(1)
+            if P.get("interleave"):
+                run(b, "rcvMsg", 1, depth.get(b, 0))
+        if not P.get("interleave"):
+            for b in range(2, j):
+                run(b, "rcvMsg", 1, depth.get(b, 0))
+        step(1, fail=1)                       # sends to j and crashes
+    else:
+        run(1, "rcvReplicaRespLoop", 1, nr + 2)
+        for b in P.get("order", list(range(2, nr + 1))):
+            run(b, "rcvMsg", 1, depth.get(b, 0))
+        for i in range(P.get("acks", 0)):
+            step(1)
+        step(1, fail=1)                       # takes one more acknowledgement (or notices a dead backup) and crashes
+    step(1)                                   # failLabel
+    for b, d in P.get("after", []):
+        run(b, "rcvMsg", 1, d)
+    run(P.get("y", nr + 2), "rcvResp", 1, 3)
+    if P.get("fast"):
+        run(2, "sndResp", 0, 16)
+    w = dict(P.get("walk", {}))
+    walk = {"seed": w.get("seed", 1), "n": w.get("n", 160), "pcrash": w.get("pcrash", 0.0), "pcrashp": w.get("pcrashp", 0.05),
+            "pwrong": w.get("pwrong", 0.05), "frozen": [X], "frozen_n": w.get("frozen_n", 60)}
+    return {"nr": nr, "nc": nc, "ef": True, "input": inp, "script": sc, "walk": walk,
+            "_family": "failover:%s:%s" % (P["mode"], P["follow"])}
+
+
+def failover_case(rng, tier):
+    """random member of the failover family (VERIF_SEED)"""
+    nr = rng.choice([3, 3, 4])
+    nc = rng.choice([2, 2, 3])
+    keys = rng.sample(["KEY1", "k2"], 2)
+    P = {"nr": nr, "nc": nc, "keys": keys, "pre": rng.random() < 0.4, "pre_key": rng.choice(keys),
+         "follow": rng.choice(["get", "get", "get", "put_other", "put_other", "put_same"]),
+         "mode": rng.choice(["snd", "snd", "rcv"]), "j": rng.randint(2, nr), "interleave": rng.random() < 0.5,
+         "acks": rng.randint(0, nr - 2), "y": rng.randint(nr + 2, nr + nc), "fast": rng.random() < 0.6}
+    P["depth"] = {b: rng.choice([0, 1, 2, 3, 4, 4, 4, 4, 4] if b == 2 else [0, 0, 1, 2, 4, 4]) for b in range(2, nr + 1)}
+    order = list(range(2, nr + 1)); rng.shuffle(order)
+    P["order"] = order
+    P["after"] = [[b, rng.choice([1, 2, 4])] for b in range(2, nr + 1) if rng.random() < 0.25]
+    P["tail"] = []
+    for i in range(rng.randint(1, 4)):
+        k = rng.choice(keys)
+        P["tail"].append({"typ": 3, "key": k, "value": "t%d" % i} if rng.random() < 0.4 else {"typ": 1, "key": k})
+    P["walk"] = {"seed": rng.randrange(1, 2 ** 31), "n": rng.randint(140, 260) if tier == "quick" else rng.randint(200, 600),
+                 "pcrash": rng.choice([0.0, 0.0, 0.01]), "pcrashp": rng.choice([0.0, 0.05, 0.15]), "frozen_n": rng.randint(40, 120)}
+    return failover_scenario(P)
+
+
+def failover_grid():
+    """the systematic part of the family (materialised in corpus/C14/failover_family.json): every crash point of
+    sndReplicaReqLoop / rcvReplicaRespLoop x {Get, Put of the other key} x {backups have / have not handled the PUT_REQ}
+    for 3 and 4 replicas, the new primary fast"""
+    out = []
+    for nr in (3, 4):
+        points = [("snd", j) for j in range(2, nr + 1)] + [("rcv", a) for a in range(0, nr - 1)]
+        for mode, x in points:
+            for follow in ("get", "put_other"):
+                for d in (4, 0):
+                    if mode == "snd" and x == 2 and d == 4:
+                        continue              # nobody has the PUT_REQ before the crash
+                    P = {"nr": nr, "nc": 2, "follow": follow, "mode": mode, "fast": True,
+                         "depth": {str(b): d for b in range(2, nr + 1)}, "pre": (len(out) % 3 == 2),
+                         "walk": {"seed": 1000 + len(out), "n": 110, "frozen_n": 45}}
+                    if mode == "snd":
+                        P["j"] = x
+                    else:
+                        P["acks"] = x
+                        if d == 0:
+                            P["depth"] = {"2": 4}   # only the future primary has applied and acknowledged
+                    out.append(P)
+    return out
+
+
 def corpus():
     out = []
     d = os.path.join(vlib.VERIF, "corpus", "C14")
@@ -383,6 +503,12 @@ def corpus():
         for f in sorted(os.listdir(d)):
             if f.endswith(".json"):
                 c = json.load(open(os.path.join(d, f)))
+                if "family" in c:          # parameter grid of a scenario family
+                    for i, P in enumerate(c["family"]):
+                        k = failover_scenario(P)
+                        k["_corpus"] = "%s#%d" % (f, i)
+                        out.append(k)
+                    continue
                 c["_corpus"] = f
                 out.append(c)
     return out
@@ -464,6 +590,8 @@ def run(ctx):
         n = 24 if ctx.tier == "quick" else 400
         for i in range(n):
             cases.append(gen_case(rng, ctx.tier))
+        for i in range(12 if ctx.tier == "quick" else 150):
+            cases.append(failover_case(rng, ctx.tier))
     for i, c in enumerate(cases):
         c["id"] = i
     rc, res, err = vlib.run_jsonl("c14", [{k: v for k, v in c.items() if not k.startswith("_")} for c in cases], timeout=1500)
@@ -498,6 +626,9 @@ def run(ctx):
         "completed_operations": stats["ops_completed"],
         "by_replicas": {str(k): sum(1 for c in cases if c["nr"] == k) for k in (1, 2, 3, 4)},
         "by_clients": {str(k): sum(1 for c in cases if c["nc"] == k) for k in (1, 2, 3)},
+        "by_distinct_keys": {str(k): sum(1 for c in cases if len(set(m["key"] for m in c["input"])) == k) for k in (1, 2, 3)},
+        "failover_family": {"grid": sum(1 for c in cases if c.get("_family") and c.get("_corpus")),
+                            "random": sum(1 for c in cases if c.get("_family") and not c.get("_corpus"))},
         "label_outcomes": {"%s/%s" % k: v for k, v in sorted(stats["labels"].items())}}
     # tie B: the typed model evaluated by vm_compute on the same schedules, state compared after every step
     if ctx.coq_ok and coq_texts:
